@@ -239,8 +239,10 @@ def run(chk: Check):
     hists, meta = [], {}
     rng = np.random.default_rng(9000 + chk.seed)
     skipped = 0
+    from ..core import housekeeping
     for k, (label, bk, hk) in enumerate(scenarios(chk.tier, chk.seed)):
         seed = 31 * chk.seed + k + 1
+        housekeeping(limit=15000)
         if bk["kind"] == "abinitio":
             sysd = runlevel.make_system(np.random.default_rng(seed), norb=4, nelec=bk["nelec"], nchol=3, trial_kind=bk["tk"],
                                         walker_type=bk["wt"], n_walkers=6, dt=bk["dt"], vscale=bk["vscale"], proxied=False)
